@@ -460,7 +460,7 @@ def main(tier):
     prog = H.get_program(features=FEATURES)
     rng = H.rng(PROP)
     limit = scale_limit(prog)
-    D = 8 if tier == 'quick' else 16
+    D = 8 if tier == 'quick' else 24
     tasks = []
     for L in range(0, D + 1):
         for (lo, hi) in ((-c04.SCALE_LIMIT, -41), (-40, 60), (61, c04.SCALE_LIMIT)):
@@ -470,7 +470,7 @@ def main(tier):
         tasks.append({'kind': 'visit_int', 'ty': ty})
     # every f32 exponent field; for f64 every field from 2^-10 upward (integer-valued and machine-width boundaries 2^7..2^128
     # included: one or two paths each above 2^52) plus the extremes
-    for ty, exps in (('f32', list(range(0, 256))), ('f64', sorted(set([0, 1, 2, 500, 1000] + list(range(1013, 2048)))))):
+    for ty, exps in (('f32', list(range(0, 256))), ('f64', sorted(set([0, 1, 2, 500, 1000] + list(range(1013, 2048)))) if tier == 'quick' else list(range(0, 2048)))):
         for e in exps:
             tasks.append({'kind': 'visit_float', 'ty': ty, 'exp': e})
     tasks.append({'kind': 'json_de', 'limit': limit})
